@@ -4,6 +4,7 @@ import (
 	"encoding/json"
 	"fmt"
 	"reflect"
+	"sort"
 
 	segment "github.com/blugelabs/bluge_segment_api"
 
@@ -22,10 +23,11 @@ const (
 	ROpDMT              // DocsMatchingTerms
 	ROpStats            // CollectionStats
 	ROpPersist          // Segment.WriteTo
+	ROpSize             // Segment.Size() (an observation like any other: must not change while others read)
 	NumROpKinds
 )
 
-var ROpNames = []string{"dict", "postings", "stored", "docvalues", "dmt", "stats", "persist"}
+var ROpNames = []string{"dict", "postings", "stored", "docvalues", "dmt", "stats", "persist", "size"}
 
 type ROp struct {
 	Kind   int   `json:"kind"`
@@ -154,21 +156,40 @@ func ExpectROp(ws *WSeg, op *ROp) *RRes {
 			r.FVs = append(r.FVs, append([]model.FV{}, exp.DV[d]...))
 		}
 	case ROpDMT:
-		_, _, list := ropTerm(ws, op)
-		for _, p := range list {
-			r.Docs = append(r.Docs, uint32(p.Doc))
+		seen := map[uint32]bool{}
+		for _, sub := range dmtEntries(op) {
+			_, _, list := ropTerm(ws, &sub)
+			for _, p := range list {
+				seen[uint32(p.Doc)] = true
+			}
 		}
+		for d := range seen {
+			r.Docs = append(r.Docs, d)
+		}
+		sort.Slice(r.Docs, func(i, j int) bool { return r.Docs[i] < r.Docs[j] })
 	case ROpStats:
 		names := ropNames(ws)
 		s := exp.Stats[names[op.Field%len(names)]]
 		r.Stat = &s
 	case ROpPersist:
 		r.NBytes = len(ws.Bytes)
+	case ROpSize:
+		r.NBytes = ws.SizeAlone
 	}
 	if op.Nest != nil && (op.Kind == ROpStored || op.Kind == ROpDocValues) && nestFires(ws, op) {
 		r.Nested = ExpectROp(ws, op.Nest)
 	}
 	return r
+}
+
+// dmtEntries: a DocsMatchingTerms operation lists its own (field, term) and,
+// encoded pairwise in Docs, further entries - typically of other fields.
+func dmtEntries(op *ROp) []ROp {
+	out := []ROp{{Field: op.Field, Term: op.Term, Absent: op.Absent}}
+	for i := 0; i+1 < len(op.Docs); i += 2 {
+		out = append(out, ROp{Field: op.Docs[i], Term: op.Docs[i+1]})
+	}
+	return out
 }
 
 // nestFires: the nested operation runs inside the first visitor callback, so
@@ -305,8 +326,12 @@ func ExecROp(ws *WSeg, seg segment.Segment, op *ROp, h *ropHooks) (*RRes, error)
 			}
 		}
 	case ROpDMT:
-		field, term, _ := ropTerm(ws, op)
-		bm, err := seg.DocsMatchingTerms([]segment.Term{simTermRef{f: field, t: term}})
+		var terms []segment.Term
+		for _, sub := range dmtEntries(op) {
+			field, term, _ := ropTerm(ws, &sub)
+			terms = append(terms, simTermRef{f: field, t: term})
+		}
+		bm, err := seg.DocsMatchingTerms(terms)
 		empty := bm == nil || bm.IsEmpty()
 		if !h.call("DocsMatchingTerms", err, empty) {
 			return r, err
@@ -322,6 +347,9 @@ func ExecROp(ws *WSeg, seg segment.Segment, op *ROp, h *ropHooks) (*RRes, error)
 			return r, err
 		}
 		r.Stat = &model.StatObs{Total: cs.TotalDocumentCount(), Docs: cs.DocumentCount(), Sum: cs.SumTotalTermFrequency()}
+	case ROpSize:
+		r.NBytes = seg.Size()
+		h.call("Size", nil, false)
 	case ROpPersist:
 		wr := NewSimWriter(h.sched)
 		n, err := seg.WriteTo(wr, nil)
